@@ -62,6 +62,10 @@ func (o *c18Ov) out() { o.active-- }
 func c18Run(r *zsim.Run) {
 	timex.ZsimReset()
 	prim := c18Prims[r.Ops.Intn(len(c18Prims))]
+	if r.Fault.Intn(4) == 3 {
+		r.StallOdds = 200
+		r.StallUnit = time.Millisecond
+	}
 	r.Logf("primitive %s", prim)
 	r.Probe("prim_" + prim)
 	switch prim {
@@ -466,10 +470,10 @@ func c18Pool(r *zsim.Run) {
 			}
 			c18Pause(r)
 			holders[x]--
-			putAt[x] = r.Now()
 			ov.in()
 			p.Put(x)
 			ov.out()
+			putAt[x] = r.Now() // taken after Put returned: never earlier than the pool's own time stamp
 			if o.Intn(4) == 0 {
 				zsim.Sleep(time.Duration(o.Intn(80)) * time.Millisecond)
 			}
